@@ -182,6 +182,28 @@ CHECKS = {
          "bounded delays and transfer counts",
          "online trace-specification checker over a simulated peer",
          "4 C28"),
+ "C14": ("exploration",
+         "ALL terminal behaviours within the bound (start state x error flag "
+         "x target x per-transition latencies x error appearing at a poll) "
+         "are played by an ESC model on a simulated ring against the full "
+         "real stack (to_operational -> roundtrip -> sendloop -> transport); "
+         "the ordered AL-control writes and AL-status reads observed at the "
+         "terminal and the call's outcome are judged by a trace automaton "
+         "written from the statement.",
+         "exhaustive within the bound only; terminal modelled as a "
+         "conformant slave that refuses skipped states",
+         "online trace automaton over events hooked at the simulated "
+         "hardware", "4 C14"),
+ "C20": ("exploration",
+         "ALL sequences of up to 5 (quick) / 7 (thorough) open-read, "
+         "open-write and close operations on terminals with 1..4 FMMUs run "
+         "through the real Terminal.map_fmmu context manager over the "
+         "simulated bus; after every step the slot table and the FMMU "
+         "register writes seen by the terminal model are checked against "
+         "the invariant live mappings <-> distinct FMMUs.",
+         "exhaustive within the bound only",
+         "invariant assertion at a hook (slot table + register writes at "
+         "the simulated terminal) after every operation", "4 C20"),
 }
 
 NOT_YET = "check not built yet in this round (design in DESIGN.md section 4)"
